@@ -108,6 +108,14 @@ CHECKS.update({
    ref="DESIGN.md §4 C07"),
 })
 
+CHECKS.update({
+ "C13": dict(
+   technique="property-based testing (proptest): validity predicates over the merged jar (union exactly once, side marks, order preservation under compatible orders, byte identity) computed from the generating member pools",
+   text="Generated-input exploration: pairs of jars over generated classes that are client-only, server-only, identical or different on the two sides; the member and interface lists of a differing class are sub-selections of a common pool, with the server order optionally made incompatible; resources, manifest, signature files, directory entries and a bundled server library are included. The merged jar (in memory and through the zip layer) must satisfy the stated union / marking / ordering / pass-through predicates exactly. Holds on everything explored.",
+   note="Trusted: harness model/projection, the predicates. Headers and shared members are equal on both sides (which side wins otherwise is not stated); record components / permitted subclasses are not generated for differing classes.",
+   ref="DESIGN.md §4 C13"),
+})
+
 NOT_YET = {
 }
 
